@@ -3,14 +3,33 @@
 -/
 import MTVerif.Lemmas.Keys
 import MTVerif.Model.Witness
+import MTVerif.Lemmas.Witness
 namespace MT.C05
 open MT
 
-/-- FULL STATEMENT (not yet proved as a theorem; evaluated on every generated case by the Lean `witnessed`
+/-- FULL STATEMENT (proved for the default limit 0 as `infer_witnessed_partial` below; for k > 0 evaluated on every generated case by the Lean `witnessed`
     function on the model and by the Python witness oracle on the implementation): the type inferred for a
     non-empty list of well-formed values is witnessed by those values at every nesting position. -/
 def InferWitnessed : Prop :=
   ∀ (k : Nat) (vs : List Val), vs ≠ [] → wfL vs = true → witnessed false vs (infer k vs) = true
+
+/-- `InferWitnessed` at the default `max_typed_dict_size` (0: no TypedDict is ever built — C06 `limit_zero_no_typed_dict`):
+    the type inferred for any non-empty collection of values, of any shape and nesting, is witnessed by those values at every
+    nesting position: every class named is the exact class of an observed value, every union alternative is inhabited, a
+    tuple type has observed tuples of that length, `Any` stands only below an observed empty container
+    (`Lemmas/Witness.lean`: monotonicity of `witnessed` on TypedDict-free types, `shrink_witnessed` by functional induction over
+    `shrink`, a value witnesses its own type).  The `k > 0` case (TypedDict merges) is the part of `InferWitnessed` that is
+    evaluated, not proved. -/
+theorem infer_witnessed_partial (vs : List Val) (hne : vs ≠ []) : witnessed false vs (infer 0 vs) = true :=
+  infer_witnessed0 vs hne
+
+/-- a single value witnesses its own type (limit 0) -/
+theorem value_witnesses_own_type (v : Val) : witnessed false [v] (getType 0 v) = true := getType_witnessed0 v
+
+/-- more observations never un-witness a TypedDict-free type -/
+theorem witnessed_monotone (t : Ty) (ht : t.hasTD = false) (e : Bool) (vs vs' : List Val) (hs : ∀ v ∈ vs, v ∈ vs')
+    (h : witnessed e vs t = true) : witnessed e vs' t = true :=
+  witnessed_mono t ht e e vs vs' (fun x => x) hs h
 
 /-- Clause "Any appears only where an empty container was observed", semantic form.  Under the *tight* reading
     of `Any` (Any admits no value at all, hence `List[Any]` only the empty list, `Dict[Any, Any]` only the empty
